@@ -16,6 +16,66 @@ def wh(span):
     return "%s:%d:%d" % (span["file"], span["line"], span["col"])
 
 
+def get_raw_loop(F, rep, fn, an, w, tail):
+    """get_raw written as a scan: `for (i, &b) in tail.iter().enumerate() { if b == 0 { return Ok(&tail[..i]) } } Err(MissingNul)`"""
+    from ..hashrules import loop_exit_controls
+    hdr = next(iter(an.loops))
+    body = an.loops[hdr]
+    nexts = [c for c in an.calls() if c.declared_norm == "iter::Iterator::next" and c.block in body]
+    msgs = []
+    strip = lambda x: x.args[0] if x.op in ("refval", "deref") else x
+    if len(nexts) != 1 or nexts[0].result.op != "iternext":
+        rep.bad("strtab", "get_raw:search", w, "UNRECOGNISED: get_raw loops, but not as `for (i, b) in tail.iter().enumerate()`")
+        return
+    r = nexts[0].result
+    src = r.args[0].args[2][0].args[2][0]
+    rep.require(strip(src) is tail, "strtab", "get_raw:tail", w, "the scan runs over data.get(offset..) from its first byte",
+                "get_raw scans %s, expected the tail data.get(offset..) with the caller's offset" % pp(src)[:200])
+    item = T.payload(r, "Some")
+    idx, byte = T.proj(item, ("f", 0, None)), T.proj(item, ("f", 1, None))
+    n_match = n_end = 0
+    for sw, val, tgt, frm in loop_exit_controls(an, hdr):
+        if sw is None or val is None:
+            msgs.append("the scan is left unconditionally from bb%d" % frm)
+            continue
+        d = an.switches[sw]
+        if d.op == "discr" and d.args[0] is r:
+            if val != "0":
+                msgs.append("the scan is left while bytes remain")
+            n_end += 1
+        elif d.op == "bin" and d.args[0] == "Eq" and T.const("u8", 0) in (d.args[1], d.args[2]) and any(strip(x) is byte or x is T.deref(byte) for x in (d.args[1], d.args[2])) and val == "otherwise":
+            n_match += 1
+        else:
+            msgs.append("the scan ends on %s = %s (neither a NUL byte nor the end of the table)" % (pp(d)[:100], val))
+    if n_match != 1 or n_end != 1:
+        msgs.append("%d NUL exits, %d end-of-table exits" % (n_match, n_end))
+    kinds = set()
+    n_ok = 0
+    for t, st in an.ret_leaves() or []:
+        if t.op == "agg" and t.args[3] == "Ok":
+            n_ok += 1
+            v = t.args[4][0]
+            cut_of = pos = None
+            if v.op == "call" and v.args[0] == "ops::Index::index" and v.args[2][1].op == "agg" and v.args[2][1].args[1] == "ops::RangeTo":
+                cut_of, pos = v.args[2][0], v.args[2][1].args[4][0]
+            elif v.op == "proj" and v.args[1][:2] == ("f", 0) and v.args[0].op == "call" and v.args[0].args[0] == "[T]::split_at":
+                cut_of, pos = v.args[0].args[2]
+            elif v.op == "payload" and v.args[1] == "Some" and v.args[0].op == "call" and v.args[0].args[0] == "[T]::get" \
+                    and v.args[0].args[2][1].op == "agg" and v.args[0].args[2][1].args[1] == "ops::RangeTo":
+                cut_of, pos = v.args[0].args[2][0], v.args[0].args[2][1].args[4][0]
+            if cut_of is None or strip(cut_of) is not tail:
+                msgs.append("returns %s, not a prefix of the tail" % pp(v)[:160])
+            elif pos is not idx:
+                msgs.append("cuts at %s, expected the index of the NUL byte found (no arithmetic)" % pp(pos)[:120])
+        elif t.op == "agg" and t.args[3] == "Err":
+            txt = pp(t)
+            kinds.add("nul" if "StringTableMissingNul" in txt else "off" if "BadOffset" in txt else txt[:40])
+    if n_ok != 1 or kinds != {"nul", "off"}:
+        msgs.append("%d success outcomes, error kinds %s" % (n_ok, sorted(kinds)))
+    rep.require(not msgs, "strtab", "get_raw:search", w, "forward scan for the first NUL of the tail; the string is the bytes before it (loop form)",
+                "get_raw: %s" % "; ".join(msgs))
+
+
 def run(ctx, rep):
     F = ctx.facts()
     fn = F.fn("string_table::StringTable::get_raw")
@@ -31,7 +91,12 @@ def run(ctx, rep):
     tail = T.payload(T.call("[T]::get", ("u8", "ops::RangeFrom<usize>"), [data, T.agg("adt", "ops::RangeFrom", 0, "RangeFrom", [p2])]), "Some")
     n_ok = 0
     kinds = set()
-    for t, st, calls in an.paths() or []:
+    if len(an.loops) == 1:
+        get_raw_loop(F, rep, fn, an, w, tail)
+        skip_paths = True
+    else:
+        skip_paths = False
+    for t, st, calls in ([] if skip_paths else (an.paths() or [])):
         if t.op == "agg" and t.args[3] == "Ok":
             n_ok += 1
             v = t.args[4][0]
@@ -82,7 +147,7 @@ def run(ctx, rep):
                 rep.bad("strtab", "get_raw:error", w, "UNRECOGNISED error outcome %s" % txt[:120])
         else:
             rep.bad("strtab", "get_raw:outcome", w, "UNRECOGNISED outcome %s" % pp(t)[:160])
-    rep.require(n_ok == 1 and kinds == {"nul", "off"}, "strtab", "get_raw:outcomes", w, "one success path; BadOffset and StringTableMissingNul errors",
+    rep.require(skip_paths or (n_ok == 1 and kinds == {"nul", "off"}), "strtab", "get_raw:outcomes", w, "one success path; BadOffset and StringTableMissingNul errors",
                 "get_raw has %d success paths and error kinds %s" % (n_ok, sorted(kinds)))
     rep.require("'data" in fn["sig"]["output"], "strtab", "get_raw:borrow", w, "returns &'data [u8]", "get_raw returns %s" % fn["sig"]["output"])
     # ---- get = from_utf8(get_raw(off)?)?
